@@ -7,6 +7,6 @@ mkdir -p .work/bin evidence replays
 cp /repo/go.sum harness/go.sum
 [ -f checklib/pregen.py ] && python3 checklib/pregen.py
 (cd harness && go build -tags verif -o ../.work/bin/vh ./cmd/vh)
-.work/bin/vh probe lean/RV/Facts/Generated.lean .work/facts.json
-(cd lean && lake build RV driver $(ls RV/Props/*.lean | sed 's#/#.#g; s#\.lean$##'))
+.work/bin/vh probe lean/RV/Facts/Generated.lean .work/facts.json lean/RV/Facts/C18
+(cd lean && lake build RV driver RV.Facts.TieC18 $(ls RV/Facts/Tie*.lean RV/Props/*.lean | sed 's#/#.#g; s#\.lean$##'))
 echo setup-ok
